@@ -152,6 +152,9 @@ def batches(tier, seed):
                             np=np, tag="np%d" % np, timeout=3000))
         res.append(dict(args=["--seed", str(seed * 1000 + 177), "--cases", "3000", "--tier", tier, "--sched", "0"], np=4,
                         tag="np4_nosched", timeout=3000))
+        # late ranks that stay away for up to 20 ms (default 4 ms)
+        res.append(dict(args=["--seed", str(seed * 1000 + 188), "--cases", "1500", "--tier", tier, "--lag-us", "20000",
+                              "--case-timeout", "90"], np=3, tag="np3_longlag", timeout=3000))
     return res
 
 
